@@ -1,4 +1,5 @@
 import QProofs.C10
+import Mathlib.Analysis.Normed.Module.Convex
 /-!
 # C10 — constrained estimators return physical, consistent estimates: property theorems
 
@@ -135,9 +136,10 @@ theorem proj_physical_accuracy (projEq projIneq : V → V) (order : Order) (norm
 
 end dykstra
 
-/-- hypotheses of `dyk_stop_accuracy` are satisfiable with a non-trivial stop: on `ℚ`, clamp to `[0,∞)` after the
-projection onto `{1}`… here simply two constant projections `y ≡ 1`, `x ≡ 1`: the second sweep stops. -/
-example : (dykLoop (K := Rat) (V := Rat) (fun _ => 1) (fun _ => 1) (fun v => v * v) (1 / 1000) 5 0 ⟨3, 0, 0, 3⟩).2 = true := by
+/-- the hypothesis `hstop` of `dyk_stop_accuracy` is satisfiable: on `ℚ` with the sets `{1}` (projection `fun _ => 1`) and
+`[0, ∞)` (projection `max · 0`), start `3`: the loop ends on its criterion, not on the limit of 5 sweeps. -/
+example : (dykLoop (K := Rat) (V := Rat) (fun _ => 1) (fun z => max z 0) (fun v => v * v) (1 / 1000) 5 0 ⟨3, 0, 0, 3⟩).2
+    = true := by
   decide +kernel
 
 /-! ## backtracking projected gradient: every iterate is feasible -/
@@ -225,6 +227,20 @@ theorem pgdb_estimate_feasible {C : Set V} (hC : Convex K C) (proj : V → V) (h
         exact ⟨hall _ (by simp), hall⟩
 
 end pgdb
+
+/-- C10.pgdb_estimate_approx_feasible: the same with an *inexact* projection, as the implementation's is (Dykstra stopped at
+`eps_proj_physical`, `proj_physical_accuracy`): if every projection output is within `δ` of the convex set `C` and the start
+point is too, then every iterate and the returned estimate are within `δ` of `C` — the error does not accumulate over the
+iterations.  (`V` a real normed space; `Metric.cthickening δ C = {x | dist(x, C) ≤ δ}`.) -/
+theorem pgdb_estimate_approx_feasible {V : Type} [SeminormedAddCommGroup V] [NormedSpace ℝ V] {C : Set V} (hC : Convex ℝ C)
+    (delta : ℝ) (proj : V → V) (hproj : ∀ z, proj z ∈ Metric.cthickening delta C)
+    (f : V → ℝ) (grad : V → V) (dot : V → V → ℝ) (sqrt : ℝ → ℝ) (mu gamma eps : ℝ) (mode : StopMode)
+    (numHist btFuel maxIter : Nat) (xStart : V) (hs : xStart ∈ Metric.cthickening delta C) (x : V) (hist : List V)
+    (errs : List ℝ)
+    (h : pgdbOptimize proj f grad dot sqrt mu gamma eps mode numHist btFuel maxIter xStart = some (x, hist, errs)) :
+    x ∈ Metric.cthickening delta C ∧ ∀ v ∈ hist, v ∈ Metric.cthickening delta C :=
+  pgdb_estimate_feasible (hC.cthickening delta) proj hproj f grad dot sqrt mu gamma eps mode numHist btFuel maxIter xStart hs
+    x hist errs h
 
 /-- the hypotheses are satisfiable and the loop really moves: on `ℚ` with `C = [0, ∞)`, `proj = max 0`,
 `f x = (x + 1)²`, start `1`: the run visits more than the start point. -/
